@@ -68,7 +68,7 @@ func cmdC11(args []string) error {
 		cfgBefore, _ := cfg.JSON()
 		cl := client.NewWithPassword("alice", realm, "pw-alice", cfg, client.DisablePAFXFAST(true))
 		g := 2 + r.Intn(15)
-		long := round%5 == 4 // a longer round across the renewal point of the TGT
+		long := round%5 == 4       // a longer round across the renewal point of the TGT
 		destroyMid := *withDestroy // one goroutine destroys the client while the others use it
 		type res struct {
 			Op      string   `json:"op"`
